@@ -494,6 +494,10 @@ inductive Act where
   | del (k : Key)
   | gc
   | unfin (k : Key) (f : String)
+  /-- an object appears (a user, or a reconcile outside the modelled deletion branches,
+  e.g. a live claim re-creating its XR). NOT part of the alphabet the trace theorems
+  quantify over; present so that the need for that restriction can be stated. -/
+  | create (o : Obj)
   deriving Repr
 
 def Thread.dead (t : Thread) : Thread := { t with prog := .ret .crashed }
@@ -518,6 +522,11 @@ def Sys.act (s : Sys) : Act → Sys
   | .del k => { s with st := deleteKey s.st k false }
   | .gc => { s with st := gcStep s.st }
   | .unfin k f => { s with st := envUnfin s.st k f }
+  | .create o => if (find s.st o.key).isSome then s else { s with st := { s.st with objs := s.st.objs ++ [o] } }
+
+def Act.isCreate : Act → Bool
+  | .create _ => true
+  | _ => false
 
 def Sys.run (s : Sys) : List Act → Sys
   | [] => s
@@ -565,6 +574,16 @@ def safeReq (s : St) (c : Ctl) (n : String) : Req → Bool
     | .offered => (match find s ⟨.xrd, n⟩ with | none => true | some d => crdNotOurs s d.of d.uid || noneOf s .claim)
     | _ => true
   | _ => true
+
+/-- the next request of in-flight reconcile `i` violates the ordering constraint in the
+current store -/
+def Sys.unsafeAt (s : Sys) (i : Nat) : Bool :=
+  match s.ths[i]? with
+  | none => false
+  | some t =>
+    match t.prog with
+    | .call r _ => !safeReq s.st t.ctl t.name r
+    | .ret _ => false
 
 /-! ### what one reconcile has seen: histories and the local ordering constraints -/
 
